@@ -40,6 +40,14 @@ def ks_uniform(u):
 def gen_exact_cases(rng, n_cases, big):
     for k in range(n_cases):
         m = doubles.random_model(rng)
+        if k % 7 == 3:
+            # a conditional dimension whose parameters are ALL fixed (accepted by virocon: "parameters": {}): still one
+            # independent draw per row
+            for i in range(m.n_dim):
+                if m.cond[i] is not None:
+                    m.s[i] = doubles.Dep("fixed", [float(rng.uniform(0.5, 2.0))])
+                    m.l[i] = doubles.Dep("fixed", [float(rng.choice([0.0, 0.25]))])
+                    break
         n = int(rng.choice([1, 2, 3, 17, 100, 1000] + ([20000] if big else [])))
         # boundary seeds (0 is falsy in Python, 2**32-1 the largest legacy seed) are drawn on purpose
         seed = int(rng.choice([0, 0, 1, 2**32 - 1])) if k % 4 == 0 else int(rng.integers(0, 2**31))
